@@ -148,10 +148,10 @@ PROPS['C14']['level_note'] = 'proof modulo the listed assumed contracts (HashMap
 
 # C15 after the per-command contracts were generated (tools/gen_defs.py)
 PROPS['C15'].pop('category', None); PROPS['C15'].pop('technique', None)
-PROPS['C15']['level_text'] = ("Proved for all parameter values: 57 of the 58 predefined commands write exactly the request documented for them (command word, every argument in the documented position; strings as one escape_argument-rendered argument, numbers as decimal text, booleans 0/1, enum keywords, ranges START:END / START:), "
-    "checked against an oracle table written from the protocol reference (tools/gen_defs.py); range normalisation (SongRange::new_usize / new) denotes exactly the positions of the Rust range, saturating at usize::MAX; integer / SongId / SongPosition / range / bool Argument impls append what the table says. "
-    "relative positions (+N / -N), optional arguments and keyword groups included. List and TagTypes (loops over tags) proved with loop invariants. NOT under contract - bounded stand-in cmddiff only: Seek (format! of a signed duration with u128 arithmetic); the TEXT of a duration argument is an uninterpreted function (its millisecond rounding is decided by cmddiff)")
-PROPS['C15']['level_note'] = 'proof for the 57 commands and the mechanisms listed under functions_under_contract; bounded (cmddiff, all 125 builder paths) for the 1 command not under contract (Seek) and for the duration text; decimal text of integers is an uninterpreted function assumed to consist of ASCII digits'
-PROPS['C15']['trusted'] = PROPS['C15']['trusted'] + ['ASSUMED about Display of unsigned integers: a non-empty string of ASCII digits (dec_text, uninterpreted otherwise); Duration::as_secs is an uninterpreted floor',
+PROPS['C15']['level_text'] = ("Proved for all parameter values: all 58 predefined commands write exactly the request documented for them (command word, every argument in the documented position; strings as one escape_argument-rendered argument, numbers as decimal text, booleans 0/1, enum keywords, ranges START:END / START:, durations as seconds with three decimals rounded half-up to the millisecond, `+`/`-` in front for relative seeks), "
+    "checked against an oracle table written from the protocol reference (tools/gen_defs.py; List, TagTypes and Seek hand-written with loop invariants / the format! expansion N9b); range normalisation (SongRange::new_usize / new) denotes exactly the positions of the Rust range, saturating at usize::MAX; integer / SongId / SongPosition / range / bool / Duration Argument impls append what the table says; "
+    "relative positions (+N / -N), optional arguments and keyword groups included. The bounded stand-in cmddiff runs all 125 builder paths as a cross-check and as the source of failing inputs")
+PROPS['C15']['level_note'] = 'proof for the 58 commands and the mechanisms listed under functions_under_contract (builders such as Count::group_by are exercised by the bounded cmddiff only); Display of unsigned integers is an uninterpreted function assumed to consist of ASCII digits, `{:03}` of a number below 1000 is assumed to be its three digits; Duration::as_nanos uninterpreted'
+PROPS['C15']['trusted'] = PROPS['C15']['trusted'] + ['ASSUMED about Display of unsigned integers: a non-empty string of ASCII digits (dec_text, uninterpreted otherwise), `{:03}` of n < 1000 is exactly its three digits; Duration::as_secs / as_nanos are uninterpreted (as_nanos bounded by u64::MAX s + 999_999_999 ns)',
     'N11: argless_command! / single_arg_command! expanded by tools/macroexp.py; the `response` member of commands with a typed reply is lifted `external_body` (a trait impl cannot be lifted half): its contract is assumed here and carried by the decoders (C16 C14)',
     'documented panics are preconditions: string parameters must be writable (no LF / NUL after rendering): trait-level `cmd_ok` / `list_ok`, required by Client::command / album_art']
